@@ -130,7 +130,7 @@ def run_case(case):
     if not good and p > 0 and optim.LAST_INFO["irrelevant_groups"]:
         # choice groups on which the evidence never depends may be absent from the ground program, or present with fewer separate options
         tol = (ng * 3 + 2) * 1e-4 + 1e-9 if mode == "maxsat" else 1e-9
-        feas = optim.feasible_optima(best, optim.LAST_INFO["irrelevant_groups"])
+        feas = optim.feasible_optima()
         if feas is None:
             return skip("too many feasible optima")
         if any(v > 0 and abs(math.log(p) - math.log(v)) <= tol for v in feas):
